@@ -356,19 +356,19 @@ Proof.
 Qed.
 
 
-Lemma Rel_ext K s S S' : (forall k, S k = S' k) -> Rel K s S -> Rel K s S'.
+Lemma Rel_ext K s S S' : (forall k, In k K -> S k = S' k) -> Rel K s S -> Rel K s S'.
 Proof.
   intros E (H1 & H2 & H3 & H4 & H5). unfold Rel. repeat split; try assumption.
-  - intros k Hk. rewrite <- E. apply H2. exact Hk.
-  - intros k Hk. rewrite <- E. apply H3. exact Hk.
-  - intros Hall. apply H5. intros k Hk. rewrite E. apply Hall. exact Hk.
+  - intros k Hk. rewrite <- E by exact Hk. apply H2. exact Hk.
+  - intros k Hk. rewrite <- E by exact Hk. apply H3. exact Hk.
+  - intros Hall. apply H5. intros k Hk. rewrite E by exact Hk. apply Hall. exact Hk.
 Qed.
 
 Section RelFold.
 Variable K : list atom.
 Variable Q : Type.
 Variable Inv : Q -> value -> Prop.
-Variable next : Q -> item -> option Q.
+Variable nextR : Q -> item -> Q -> Prop.
 Variable own : item -> bool.
 
 Definition cls (k : atom) (x : item) : bool :=
@@ -376,37 +376,34 @@ Definition cls (k : atom) (x : item) : bool :=
 Definition runS (S : atom -> st) (l : list item) : atom -> st :=
   fun k => irun (map irestrict (filter (cls k) l)) (S k).
 
-Fixpoint own_run (q : Q) (l : list item) : option Q :=
-  match l with
-  | [] => Some q
-  | x :: r => if own x then match next q x with Some q' => own_run q' r | None => None end
-              else own_run q r
-  end.
+Inductive own_run : Q -> list item -> Q -> Prop :=
+| own_run_nil q : own_run q [] q
+| own_run_own q q' qf x l : own x = true -> nextR q x q' -> own_run q' l qf -> own_run q (x :: l) qf
+| own_run_child q qf x l : own x = false -> own_run q l qf -> own_run q (x :: l) qf.
 
 Hypothesis Hinv_set : forall q W k v W', Inv q W -> In k K -> set_item W k v = Some W' -> Inv q W'.
-Hypothesis Hown : forall q q' s S x, Rel K s S -> Inv q (root s) -> own x = true -> next q x = Some q' ->
+Hypothesis Hown : forall q q' s S x, Rel K s S -> Inv q (root s) -> own x = true -> nextR q x q' ->
   Rel K (istep s x) S /\ Inv q' (root (istep s x)).
 
 Lemma rel_fold l : forall s S q qf,
   (forall x, In x l -> own x = false -> exists k r, ipath x = PKey k :: r /\ In k K /\ okr x r) ->
-  Rel K s S -> Inv q (root s) -> own_run q l = Some qf ->
+  Rel K s S -> Inv q (root s) -> own_run q l qf ->
   Rel K (irun l s) (runS S l) /\ Inv qf (root (irun l s)).
 Proof.
   induction l as [|x l IH]; intros s S q qf Hch HR HI HO.
-  - cbn in HO. inversion HO; subst qf. split; [|exact HI]. eapply Rel_ext; [|exact HR]. intros k. reflexivity.
-  - cbn [own_run] in HO. cbn [irun fold_left]. change (fold_left istep l (istep s x)) with (irun l (istep s x)).
-    destruct (own x) eqn:Ox.
-    + destruct (next q x) as [q'|] eqn:Nx; [|discriminate].
-      destruct (Hown q q' s S x HR HI Ox Nx) as [HR' HI'].
-      destruct (IH (istep s x) S q' qf (fun y Hy => Hch y (or_intror Hy)) HR' HI' HO) as [A B].
+  - inversion HO; subst. split; [|exact HI]. eapply Rel_ext; [|exact HR]. intros k _. reflexivity.
+  - cbn [irun fold_left]. change (fold_left istep l (istep s x)) with (irun l (istep s x)).
+    inversion HO as [|q0 q' qf0 x0 l0 Ox Nx HO'|q0 qf0 x0 l0 Ox HO']; subst.
+    + destruct (Hown q q' s S x HR HI Ox Nx) as [HR' HI'].
+      destruct (IH (istep s x) S q' qf (fun y Hy => Hch y (or_intror Hy)) HR' HI' HO') as [A B].
       split; [|exact B]. eapply Rel_ext; [|exact A].
-      intros k. unfold runS. cbn [filter]. unfold cls at 2. rewrite Ox. reflexivity.
+      intros k _. unfold runS. cbn [filter]. unfold cls at 2. rewrite Ox. reflexivity.
     + destruct (Hch x (or_introl eq_refl) Ox) as (k0 & r & Hp & Hk0 & Hokr).
       destruct (rel_child_step K s S x k0 r HR Hp Hk0 Hokr) as [HR' (v & Hv)].
       assert (HI' : Inv q (root (istep s x))) by (eapply Hinv_set; eassumption).
-      destruct (IH (istep s x) _ q qf (fun y Hy => Hch y (or_intror Hy)) HR' HI' HO) as [A B].
+      destruct (IH (istep s x) _ q qf (fun y Hy => Hch y (or_intror Hy)) HR' HI' HO') as [A B].
       split; [|exact B]. eapply Rel_ext; [|exact A].
-      intros k. unfold runS, updS. cbn [filter]. unfold cls at 2. rewrite Ox. unfold fkey. rewrite Hp. cbn [negb andb].
+      intros k _. unfold runS, updS. cbn [filter]. unfold cls at 2. rewrite Ox. unfold fkey. rewrite Hp. cbn [negb andb].
       destruct (atom_eqb k0 k) eqn:E.
       * apply atom_eqb_eq in E. subst k0. rewrite atom_eqb_refl. reflexivity.
       * destruct (atom_eqb k k0) eqn:E2; [apply atom_eqb_eq in E2; subst k0; rewrite atom_eqb_refl in E; discriminate|].
@@ -421,15 +418,15 @@ Lemma rel_fold_children K l s S :
   Rel K (irun l s) (runS (fun _ => false) S l) /\ same_off K (root s) (root (irun l s)).
 Proof.
   intros Hch HR.
-  assert (HO : own_run unit (fun _ _ => None) (fun _ => false) tt l = Some tt).
-  { clear. induction l as [|x l IH]; cbn; [reflexivity|exact IH]. }
+  assert (HO : own_run unit (fun _ _ _ => False) (fun _ => false) tt l tt).
+  { clear. induction l as [|x l IH]; [constructor|apply own_run_child; [reflexivity|exact IH]]. }
   assert (S0 : sepK K (root s)) by (destruct HR as [HS _]; exact HS).
-  pose proof (rel_fold K unit (fun _ W => sepK K W /\ same_off K (root s) W) (fun _ _ => None) (fun _ => false)) as RF.
+  pose proof (rel_fold K unit (fun _ W => sepK K W /\ same_off K (root s) W) (fun _ _ _ => False) (fun _ => false)) as RF.
   destruct (RF) with (l := l) (s := s) (S := S) (q := tt) (qf := tt) as [A B]; try assumption.
   - intros q W k v W' [HI1 HI2] Hk HS. split.
     + eapply sepK_set; eassumption.
     + eapply same_off_trans; [exact HI2|]. eapply same_off_set; eassumption.
-  - intros; discriminate.
+  - intros; contradiction.
   - intros x Hx _. apply Hch. exact Hx.
   - split; [exact S0|]. apply same_off_refl. eapply sepK_box; exact S0.
   - split; [exact A|apply B].
